@@ -146,7 +146,26 @@ func program(c Case) (setup, main string) {
 (defun producer (id) (vt:begin) (dotimes (i %d) (channel-push *ch* (cons id i))) (vt:end) (channel-push *done* id))
 (defun consumer (id) (vt:begin) (do ((v (channel-pop *ch*) (channel-pop *ch*))) ((null v)) (vt:sink id v)) (vt:end) (channel-push *done* id))
 (defun consumer-range (id) (vt:begin) (range (lambda (v) (vt:sink id v)) *ch*) (vt:end) (channel-push *done* id))
+(defvar *quit* nil) (defvar *ack* nil)
+(defun consumer-select (id) (vt:begin)
+  (do ((stop nil)) (stop)
+    (select (*ch* v (vt:sink id v) (channel-push *ack* 1))
+            (*quit* q (setq stop t))))
+  (vt:end) (channel-push *done* id))
 `, c.M)
+		if c.Variant%4 == 2 {
+			// consumers wait with select on the item channel and on a quit channel; every item is acknowledged, and
+			// the quit channel is closed only when all items are: a consumer must see it whatever it looked at before
+			fmt.Fprintf(&sb, "(progn (setq *ch* (make-channel %d)) (setq *done* (make-channel %d)) (setq *quit* (make-channel 1)) (setq *ack* (make-channel 100000))", c.Cap+1, c.N+2) // room for every acknowledgement, also when a warm-up runs with the producers of the real case
+			for i := 0; i < q; i++ {
+				fmt.Fprintf(&sb, " (run (consumer-select %d))", 100+i)
+			}
+			for i := 0; i < p; i++ {
+				fmt.Fprintf(&sb, " (run (producer %d))", i)
+			}
+			fmt.Fprintf(&sb, " (dotimes (i %d) (channel-pop *done*)) (dotimes (i %d) (channel-pop *ack*)) (channel-close *quit*) (dotimes (i %d) (channel-pop *done*)) 'finished)", p, p*c.M, q)
+			break
+		}
 		fmt.Fprintf(&sb, "(progn (setq *ch* (make-channel %d)) (setq *done* (make-channel %d))", c.Cap, c.N+2)
 		for i := 0; i < q; i++ {
 			cons := "consumer"
@@ -879,7 +898,7 @@ func TestC17(t *testing.T) {
 		for _, tv := range []struct {
 			t  string
 			vs []int
-		}{{"channels", []int{0, 1}}, {"mutex", []int{0, 1, 2}}, {"sync-instance", []int{0, 1, 2, 4, 6}}, {"tables", []int{0}}, {"generic", []int{0}}, {"late-globals", []int{0}}} {
+		}{{"channels", []int{0, 1, 2}}, {"mutex", []int{0, 1, 2}}, {"sync-instance", []int{0, 1, 2, 4, 6}}, {"tables", []int{0}}, {"generic", []int{0}}, {"late-globals", []int{0}}} {
 			for _, v := range tv.vs {
 				for _, warm := range []bool{false, true} {
 					c := Case{Template: tv.t, N: 3 + (sh+v)%4, M: 40 + 20*((sh+v)%3), Cap: (sh + v) % 3, Procs: []int{4, 16, 2, 8}[(sh+v)%4], Variant: v, Warm: warm}
